@@ -1,4 +1,5 @@
 import Fzf.Lemmas.Terminal
+import Fzf.Generated.GoFuncs
 /-
 C09 — query line, cursor and selection evolve exactly as the actions prescribe.
 Property theorems only.
@@ -237,5 +238,22 @@ theorem C09_excluded_stays_out (op : Opts) (before s : TS) (i : Nat) (hi : i ∈
   have := hmem.2
   simp at this
   exact this hi
+
+end Fzf.Props.C09
+
+namespace Fzf.Props.C09
+open Fzf Fzf.Terminal
+
+/-- The clamping the cursor code relies on is the function in the source: `util.Constrain`,
+    translated from /repo/src/util/util.go on every run (harness/gotolean), is the model's
+    `constrainInt`, and its result lies between the bounds whenever they are ordered. -/
+theorem C09_constrain_is_source (v lo hi : Int) :
+    Generated.Go.Constrain v lo hi = constrainInt v lo hi ∧
+    (lo ≤ hi → lo ≤ Generated.Go.Constrain v lo hi ∧ Generated.Go.Constrain v lo hi ≤ hi) := by
+  unfold Generated.Go.Constrain constrainInt
+  constructor
+  · by_cases h1 : v < lo <;> by_cases h2 : v > hi <;> simp [h1, h2]
+  · intro hle
+    by_cases h1 : v < lo <;> by_cases h2 : v > hi <;> simp [h1, h2] <;> omega
 
 end Fzf.Props.C09
